@@ -102,6 +102,7 @@ func C08(r *ev.Run) {
 	scens := fatAllScens("fatck", r.Quick(), depth)
 	for _, c := range fatConfigs(true) {
 		scens = append(scens, fatAliasScenario(c, "fatck", depth))
+		scens = append(scens, heldHandleScenario(c, "fatck", depth))
 	}
 	// Create-only sweep (plus a depth-1 alphabet) across the cluster-size table boundaries
 	for _, c := range fatSweepConfigs(r.Quick()) {
